@@ -44,20 +44,40 @@ func BuildMessageSet(specs []BatchSpec) ([]byte, error) {
 			rs.Attributes = protocol.Attributes(compress.Gzip)
 		case 2:
 			rs.Attributes = protocol.Attributes(compress.Snappy)
+		case 3:
+			rs.Attributes = protocol.Attributes(compress.Lz4)
+		case 4:
+			rs.Attributes = protocol.Attributes(compress.Zstd)
 		}
 		var b bytes.Buffer
 		if _, err := rs.WriteTo(&b); err != nil {
 			return nil, err
 		}
-		out.Write(b.Bytes()[4:]) // drop the int32 size prefix of the record set
+		enc := b.Bytes()[4:] // drop the int32 size prefix of the record set
+		// the encoder of /repo/protocol is the produce side: it writes base offset 0 / relative
+		// offsets; a broker assigns the log offsets (not covered by the CRCs)
+		n := int64(len(sp.Msgs))
+		switch {
+		case sp.Version == 2:
+			binary.BigEndian.PutUint64(enc[0:], uint64(sp.Base))
+		case sp.Codec != 0: // v1 wrapper message: offset of the last inner message, inner offsets relative
+			binary.BigEndian.PutUint64(enc[0:], uint64(sp.Base+n-1))
+		default:
+			for p, i := 0, int64(0); p+12 <= len(enc); i++ {
+				binary.BigEndian.PutUint64(enc[p:], uint64(sp.Base+i))
+				p += 12 + int(binary.BigEndian.Uint32(enc[p+8:]))
+			}
+		}
+		out.Write(enc)
 	}
 	return out.Bytes(), nil
 }
 
 // FetchBody is a scripted answer to a legacy (v2) fetch request.
 type FetchBody struct {
-	HWM    int64
-	MsgSet []byte
+	HWM     int64
+	MsgSet  []byte
+	ErrCode int16 // partition error code
 }
 
 // FetchFrameV2 renders a complete fetch v2 response frame: one topic, one partition.
@@ -72,7 +92,7 @@ func FetchFrameV2(corr int32, topic string, partition int32, throttle int32, fb 
 	b.WriteString(topic)
 	put(int32(1))
 	put(partition)
-	put(int16(0))
+	put(fb.ErrCode)
 	put(fb.HWM)
 	put(int32(len(fb.MsgSet)))
 	b.Write(fb.MsgSet)
